@@ -42,7 +42,7 @@ KNOWN_BEYOND = {
     ("SentQuorum", "resend-main-after-backup"), ("SingleSend", "resend-main-after-backup"), ("SentAccepted", "resend-main-after-backup"),
     ("RelayAccepted", "resend-main-after-backup"),
     ("Agreement", "no-fetch-intake-window"), ("SentAccepted", "no-fetch-intake-window"), ("RelayAccepted", "no-fetch-intake-window"),
-    ("FeeSum", "no-fetch-intake-window"),
+    ("FeeSum", "no-fetch-intake-window"), ("SentQuorum", "no-fetch-intake-window"),
 }
 RULE_EXT = ("oracle-service extension: cases = builds (main + backup response transaction found in a real service's incomplete-"
             "transaction map), OnTransaction calls, relays to the producer's pool, included responses, block deliveries and restarts "
@@ -126,7 +126,8 @@ def ground_of(pred, ev, idx):
     else:
         s = None
     if s is not None:
-        if ev.get("event") == "tick" and s.get("which") == "main" and pred in ("SentQuorum", "SingleSend", "SentAccepted") and s.get("pushes", 9) < len(s.get("keys") or []):
+        if ev.get("event") == "tick" and s.get("which") == "main" and (pred == "SingleSend" or (
+                pred in ("SentQuorum", "SentAccepted") and s.get("pushes", 9) < len(s.get("keys") or []))):
             return "resend-main-after-backup"
         if sorted(s.get("keys") or []) != sorted(s.get("desig") or []):
             return "stale-designation"
